@@ -12,8 +12,9 @@
    The theorems are about the model's own step function; C02 (is_applicable = holds) and C03 (apply = successor)
    identify it with the PDDL semantics, see the corollary section at the end. *)
 From Coq Require Import List String Bool PrimFloat.
-From Verif Require Import Base.Result Base.PyDict Model.Domain Model.Exec Model.Plan Spec.Pddl Spec.Plan
-  Proofs.C04_Thread Proofs.C04_Plan Proofs.C04_Examples.
+From Verif Require Import Base.Result Base.Str Base.PyDict Model.Types Model.Domain Model.Exec Model.Plan Spec.Pddl Spec.Plan
+  Spec.Joint Spec.Subst Proofs.C20_Defs Proofs.C20_Subst Proofs.C03_Defs
+  Model.Tokenizer Spec.Layout Proofs.C04_Thread Proofs.C04_Plan Proofs.C04_Lines Proofs.C04_Spec Proofs.C04_Link Proofs.C04_Examples.
 Import ListNotations.
 
 (* The trajectory, for plans of any length and any line texts: one triplet per plan line, in plan order; the first
@@ -57,6 +58,33 @@ Theorem C04_allow_irrelevant : forall d eps ga objs o u s allow,
   is_applicable d eps objs ga s = Ok true ->
   apply_op d eps ga objs allow false o u s = apply_op d eps ga objs true false o u s.
 Proof. exact apply_op_allow_irrelevant. Qed.
+
+(* ---------- how a plan line is read ---------- *)
+(* lower(), pad the parentheses, split(): on a line without ';' exactly the token stream of the PDDL tokenizer *)
+Theorem C04_line_tokens : forall m (line : string),
+  no_comment (s2t line) -> action_tokens line = tokenize m (s2t line).
+Proof. exact action_tokens_tokenize. Qed.
+
+(* a call written "( name arg ... arg )" in ANY layout (blanks before every token - at least one between two names -,
+   any letter case, blanks / newline after it) is read as the lower-cased name with the lower-cased arguments in order *)
+Theorem C04_line_reading : forall (name : text) (args seps : list text) (trailer : text),
+  is_atom_text name -> Forall is_atom_text args ->
+  List.length seps = List.length (call_tokens name args) ->
+  Forall is_blank seps -> is_blank trailer ->
+  valid_from MStr false (combine seps (call_tokens name args)) ->
+  parse_action_call (t2s (render (combine seps (call_tokens name args)) trailer)) =
+  Ok {| ac_name := t2s (lower_text name); ac_args := map (fun a => t2s (lower_text a)) args |}.
+Proof. exact parse_action_call_layout. Qed.
+
+(* its hypotheses hold for "  ( MOVE<TAB>L1  l2 )<LF>", which is read as (move l1 l2) *)
+Theorem C04_line_example :
+  (is_atom_text lx_name /\ Forall is_atom_text lx_args /\
+   List.length lx_seps = List.length (call_tokens lx_name lx_args) /\
+   Forall is_blank lx_seps /\ is_blank lx_trailer /\
+   valid_from MStr false (combine lx_seps (call_tokens lx_name lx_args))) /\
+  parse_action_call (t2s (render (combine lx_seps (call_tokens lx_name lx_args)) lx_trailer)) =
+  Ok {| ac_name := "move"; ac_args := ["l1"; "l2"]%string |}.
+Proof. exact (conj lx_hypotheses lx_reading). Qed.
 
 (* ---------- malformed plan lines: what the code does ---------- *)
 (* a line that fails makes parse_plan fail with that error, whatever follows *)
@@ -107,7 +135,51 @@ Theorem C04_example_forced :
   (exists t, nth_error ex_trace_forced 1 = Some t /\ ms_st (t_next t) <> ms_st (t_prev t)).
 Proof. exact ex_forced_lemma. Qed.
 
+(* ---------- against the PDDL semantics ---------- *)
+(* Spec.Plan.run_plan is THE trajectory of the property text (is_trajectory: one step per line in order, first pre-state,
+   chaining, post = successor | unchanged) ... *)
+Theorem C04_spec_trajectory_unique : forall (S A : Type) (app : A -> S -> bool) (succ : A -> S -> S) (allow : bool) tr init plan,
+  is_trajectory S A app succ allow init plan tr <-> tr = run_plan S A app succ allow init plan.
+Proof. exact trajectory_iff. Qed.
+
+(* ... and the model's trajectory is that trajectory over Spec.Pddl.applicable / successor, step by step (states compared
+   as sets of facts and maps of fluents).  Premise [plan_refines]: line by line, at the state reached, the library's
+   applicability test answers Spec.Pddl.applicable and - when the step is taken - apply returns the PDDL successor:
+   that is what C02 and C03 prove (C04_link below discharges it for one step from their hypotheses). *)
+Theorem C04_trajectory_spec : forall d eps allow objs sch tt init lines calls ms,
+  Forall2 (fun l c => parse_action_call l = Ok c) lines calls ->
+  plan_refines d eps allow objs sch tt 0 calls ms init ->
+  exists ts, parse_plan d eps allow objs sch init lines = Ok ts /\
+             Forall2 same_step ts
+               (run_plan _ _ (fun (m : member) s => m_applicable tt objs eps s m)
+                         (fun (m : member) s => m_step tt objs eps s m) allow init ms).
+Proof. exact parse_plan_spec. Qed.
+
+(* one step of the premise from the hypotheses of C02_applicable_spec and C03_forced (any visiting order o) *)
+Theorem C04_link : forall d eps objs name a effs phi args ga s (o : orders),
+  dget (d_actions d) name = Some a ->
+  denote_pre (ma_pre a) = Some phi -> denote_effs a = Some effs -> names_ok d a = true ->
+  ground_action d a args = Ok ga ->
+  no_shadow (d_consts d) (dkeys (call_map a args) ++ pre_bvars (ma_pre a)) = true ->
+  pre_ok d true (dkeys (call_map a args)) (ma_pre a) = true ->
+  fdiv0 (d_types d) objs (bind_args (spec_action a effs) args) s (a_pre (spec_action a effs)) = false ->
+  evaluates d eps objs ga s ->
+  consistent (all_groups eps (d_types d) objs (spec_action a effs) args s) = true ->
+  is_order (fst o) (List.length (ga_groups ga)) -> is_order (snd o) (List.length (ma_univ a)) ->
+  let c := {| ac_name := name; ac_args := args |} in
+  let m : member := (spec_action a effs, args) in
+  call_applicable d eps (Some objs) c s = Ok (m_applicable (d_types d) objs eps s m) /\
+  forall allow ord, ord a = o -> m_applicable (d_types d) objs eps s m || allow = true ->
+    exists s', apply_call d eps (Some objs) allow ord c s = Ok s' /\ st_equiv s' (m_step (d_types d) objs eps s m).
+Proof. exact link_lemma. Qed.
+
 Print Assumptions C04_trajectory.
+Print Assumptions C04_line_tokens.
+Print Assumptions C04_line_reading.
+Print Assumptions C04_line_example.
+Print Assumptions C04_spec_trajectory_unique.
+Print Assumptions C04_trajectory_spec.
+Print Assumptions C04_link.
 Print Assumptions C04_step_cases.
 Print Assumptions C04_refusal.
 Print Assumptions C04_allow_irrelevant.
